@@ -470,5 +470,7 @@ func checkC15(t *testing.T, env *report.Env, rep *report.Report) {
 	}
 	hx.ExploreScenarios(t, env, rep, "sched-installs-vs-gets-vs-newupdater", list, bound, true, nil)
 	// updaters on names that have to be looked up first, racing lookups and polls
-	runSched(t, env, rep, map[string]bool{"C15": true}, "sched-updater-on-looked-up-name", lookupScenarios()[3:4], 2, 3)
+	runSched(t, env, rep, map[string]bool{"C15": true}, "sched-updater-on-looked-up-name", pick(lookupScenarios(), "S7 "), 2, 3)
+	// an updater created on a cached name while the poll that would expire the name is in flight
+	runSched(t, env, rep, map[string]bool{"C15": true}, "sched-updater-vs-expiring-poll", pick(lookupScenarios(), "S11 "), 2, 3)
 }
